@@ -203,9 +203,58 @@ def regenerate():
         if not os.path.exists(dst) or open(src, "rb").read() != open(dst, "rb").read():
             shutil.copy(src, dst)
     shutil.rmtree(tmp, ignore_errors=True)
+    validate_translated(info)
     json.dump(info, open(os.path.join(BUILD, "gen.info"), "w"))
     stamp_set("gen", h)
     return info
+
+
+def validate_translated(info):
+    """The translated files must compile, and quickly: an ill-typed definition (the translator met a construct
+    it renders wrongly) can cost Coq minutes of elaboration before the error.  Each file is compiled under a
+    time limit; if that fails, its definitions are kept one by one only while the file still compiles, and the
+    ones dropped are named in the generation report (the ties that mention them then fail at once)."""
+    for rel in ("Gen/Consts.v", "Gen/PrivConsts.v"):
+        sh(["coqc", "-q", "-Q", ".", "PS", rel], cwd=COQ, timeout=120)
+    for rel, limit in (("Gen/CFuns.v", 120), ("Gen/CApi.v", 120)):
+        path = os.path.join(COQ, rel)
+        if not os.path.exists(path):
+            continue
+        rc, _out = sh(["coqc", "-q", "-Q", ".", "PS", rel], cwd=COQ, timeout=limit)
+        if rc == 0:
+            continue
+        text = open(path).read()
+        blocks = text.split("\n\n")
+        kept = []
+        dropped = []
+        scratch_rel = rel.replace(".v", "Try.v")
+        scratch = os.path.join(COQ, scratch_rel)
+        for b in blocks:
+            if not b.startswith("Definition "):
+                kept.append(b)
+                continue
+            name = b.split()[1]
+            open(scratch, "w").write("\n\n".join(kept + [b]) + "\n")
+            rc, out = sh(["coqc", "-q", "-Q", ".", "PS", scratch_rel], cwd=COQ, timeout=60)
+            if rc == 0:
+                kept.append(b)
+            else:
+                why = "does not compile within 60 s" if rc == 124 else "does not typecheck: " + out.strip().split("\n")[-1][:160]
+                kept.append("(* %s: DROPPED, the translation %s *)" % (name, why.replace("*)", "* )")))
+                dropped.append(name)
+                if isinstance(info.get("c2coq"), dict):
+                    info["c2coq"][name] = "dropped: " + why
+        for ext in (".v", ".vo", ".vok", ".vos", ".glob"):
+            try:
+                os.remove(scratch[:-2] + ext)
+            except OSError:
+                pass
+        try:
+            os.remove(os.path.join(COQ, "Gen", "." + os.path.basename(scratch)[:-2] + ".aux"))
+        except OSError:
+            pass
+        open(path, "w").write("\n\n".join(kept) + "\n")
+        sh(["coqc", "-q", "-Q", ".", "PS", rel], cwd=COQ, timeout=limit)
 
 
 class BuildError(Exception):
